@@ -276,6 +276,40 @@ example : canDeadlock (scenSys 4 [.reroot 1 2, .reroot 1 2]) = false := by decid
 example : deadlocked rerootDead = true := by decide
 
 
+/-! ## The interleaving search the driver answers with is sound -/
+
+/-- Every `(deadlock true)` the driver prints is backed by a real schedule: if the exhaustive
+    search `canDeadlock` reports a deadlock for a set of lock programs, then some schedule of the
+    model reaches a state in which somebody is unfinished and nobody can perform his next lock
+    operation.  (The converse — a `false` means no schedule deadlocks — is NOT proved: the search
+    identifies states by the remaining program lengths and is cut off by fuel.) -/
+theorem canDeadlock_sound_partial (progs : List (List Op)) (h : canDeadlock progs = true) :
+    ∃ sched s, runSched (mkSys progs) sched = some s ∧
+      (¬ ∀ th ∈ s, th.prog = []) ∧ ∀ i, stepAt s i = none := by
+  unfold canDeadlock at h
+  obtain ⟨s, ⟨sched, hr⟩, hd⟩ := ParLocks.Proofs.explore_sound (mkSys progs) _ _ []
+    (fun x hx => by
+      simp only [List.mem_singleton] at hx
+      subst hx
+      exact ParLocks.Proofs.reach_refl _) h
+  exact ⟨sched, s, hr, ParLocks.Proofs.deadlocked_spec s hd⟩
+
+/-- Hence on lock programs that respect one ranking the search can only answer `false`. -/
+theorem hierarchy_search_finds_nothing (rank : Lock → Nat) (progs : List (List Op))
+    (hord : ∀ p ∈ progs, ParLocks.Proofs.Ordered rank [] p) : canDeadlock progs = false := by
+  cases h : canDeadlock progs with
+  | false => rfl
+  | true =>
+    obtain ⟨sched, s, hr, hnd, hstuck⟩ := canDeadlock_sound_partial progs h
+    rcases hierarchy_no_deadlock rank progs hord sched s hr with hdone | ⟨i, hi⟩
+    · exact absurd hdone hnd
+    · rw [hstuck i] at hi; simp at hi
+
+/-! non-vacuity: the D11 pair is reported, and the report is a real reachable deadlock -/
+example : ∃ sched s, runSched (mkSys (scenSys 4 [.reroot 1 2, .reroot 2 1])) sched = some s ∧
+    (¬ ∀ th ∈ s, th.prog = []) ∧ ∀ i, stepAt s i = none :=
+  canDeadlock_sound_partial _ (by decide +kernel)
+
 /-! ## Intern: one text, one pointer — what field access by interned name rests on
 
 `GlobalVmState::intern` (vm/src/vm.rs:705-709) performs lookup-or-insert as ONE step under the
